@@ -35,8 +35,9 @@ type c05World struct {
 	s                *dsim.Sim
 	net              *node.Net
 	pn               *pnet.Net
-	n, x, i          *node.Node
-	tn, tx, ti       *node.TC
+	n, x, i, x2      *node.Node
+	tn, tx, ti, tx2  *node.TC
+	x2Dials          int
 	cx, ci           *pnet.Conn
 	dials            []*c05Dial
 	ops              int
@@ -110,7 +111,7 @@ func init() {
 		Cfg:        dsim.Config{MaxChaosSteps: 400, MaxStableSteps: 60000, Horizon: 5 * time.Minute},
 		Real:       []string{"transport/controller.Controller (DialPeerAddr, link dialers, EstablishLinkWithPeer resolver, flushEstablishedLink dialer restart)", "transport/common/dialer.Dialer (backoff retry)", "tptaddr.DialTptAddr directive and its resolver in the transport controller", "transport/common/pconn.Transport, transport/common/quic (Transport.DialPeer, Dialer, HandleSession, Link)", "crypto/tls identity + certificate verification", "quic-go v0.59 and crypto/tls handshakes", "controllerbus, peer controller"},
 		Stub:       []string{"net.PacketConn is a simulator-owned datagram endpoint (worlds/pnet): delivery order, loss, duplication, corruption and address binding are driver decisions", "websocket and WebRTC dial paths are not run (real sockets / pion)"},
-		FaultKinds: []string{"fault:address-rebind-to-impostor", "fault:address-rebind-to-owner", "fault:packet-loss", "fault:packet-dup", "fault:packet-reorder", "fault:packet-corrupt", "fault:clock-jump", "fault:dial-cancel", "fault:concurrent-dial-other-peer", "fault:alias-dial-string"},
+		FaultKinds: []string{"fault:address-rebind-to-impostor", "fault:address-rebind-to-owner", "fault:packet-loss", "fault:packet-dup", "fault:packet-reorder", "fault:packet-corrupt", "fault:clock-jump", "fault:dial-cancel", "fault:concurrent-dial-other-peer", "fault:alias-dial-string", "fault:peer-linked-through-another-address"},
 	})
 }
 
@@ -148,7 +149,11 @@ func (w *c05World) Setup(s *dsim.Sim) {
 	w.tn = w.n.AddQuicTransport("tn", "N", cn, static, onEst("N"))
 	w.tx = w.x.AddQuicTransport("tx", "X", w.cx, nil, onEst("X"))
 	w.ti = w.i.AddQuicTransport("ti", "I", w.ci, nil, onEst("I"))
-	for _, tc := range []*node.TC{w.tn, w.tx, w.ti} {
+	// X is also reachable through a second endpoint of its own (same identity, another
+	// address): N may hold a link to X that does not go through "ax"
+	w.x2 = w.net.AddNode("X2", "X")
+	w.tx2 = w.x2.AddQuicTransport("tx2", "X", w.pn.Listen("X2", "ax2"), nil, onEst("X2"))
+	for _, tc := range []*node.TC{w.tn, w.tx, w.ti, w.tx2} {
 		tc := tc
 		tc.Rec.OnLost = func(l link.Link) {
 			s.Logf("link-lost at %s: remote=%s", tc.P.Name, w.net.Names[l.GetRemotePeer().String()])
@@ -250,6 +255,18 @@ func (w *c05World) Actions(s *dsim.Sim, add func(dsim.Action)) {
 					_, _, _ = w.n.Bus.AddDirective(tptaddr.NewDialTptAddr(&dialer.DialerOpts{Address: "sim|" + w.dialStr}, w.tn.P.ID, tg.tc.P.ID), &c05TptWatch{w: w, want: tg.tc, wantName: tg.nm})
 				}})
 			}
+		}
+		if w.x2Dials < 1 {
+			add(dsim.Action{Name: "3op:X-dials-N-from-its-other-address", Weight: 2, Fire: func() {
+				w.ops++
+				w.x2Dials++
+				s.Count("fault:peer-linked-through-another-address")
+				ctx, cancel := context.WithTimeout(w.x2.Ctx(), 60*time.Second)
+				go func() {
+					defer cancel()
+					_, _ = w.tx2.Ctrl.DialPeerAddr(ctx, w.tn.P.ID, &dialer.DialerOpts{Address: "an"})
+				}()
+			}})
 		}
 		add(dsim.Action{Name: "3op:dial-for-other-peer", Weight: 2, Fire: func() { w.ops++; s.Count("fault:concurrent-dial-other-peer"); w.dialFor(w.ti, "I") }})
 	}
